@@ -13,7 +13,7 @@ RULE = ("same history generator as C01 (different seed stream, longer histories 
 
 def gen_cases(rng, tier):
     rng.next()
-    return B.gen_ops_cases(rng, tier, 1200, 40000, steps=(8, 50))
+    return B.gen_ops_cases(rng, tier, 1200, 12000, steps=(8, 50))
 
 
 def predicate(c, obs):
